@@ -239,6 +239,12 @@ func C18(tier string) int {
 						run.HarnessErr = err
 						return run.Finish()
 					}
+					// The response is read after the server has answered somebody else.
+					otherClient := "c2"
+					if client == "c2" {
+						otherClient = "c1"
+					}
+					_, _ = handler.ListAccounts(context.WithValue(r.Ctx, &interceptors.ClientName{}, otherClient), &pb.ListAccountsRequest{Paths: []string{"W2", "W1/b", "D1"}})
 					must, may := c18Expect(table, client, pop, pl)
 					got := map[string]bool{}
 					rp := map[string]any{"check": "C18", "table": ti, "client": client, "paths": pl, "phase": phase}
